@@ -7,7 +7,7 @@ set -uo pipefail
 WT=$1; N=$2; SID=$3; PROP=$4; shift 4; CHECKS="$*"
 OUT=$WT/_out; LOG=/verif/.work/seedeval/$SID; mkdir -p $LOG
 cd $WT || exit 2
-git checkout -q -- . ; git status --short | grep -v '^??' && { echo "worktree not clean"; exit 2; }
+git checkout -q -- . ; git checkout -q --detach $(git -C /repo rev-parse HEAD) ; git status --short | grep -v '^??' && { echo "worktree not clean"; exit 2; }
 git apply --check $OUT/patch$N.diff || { echo "patch does not apply"; exit 2; }
 git -C /repo apply --check $OUT/patch$N.diff || { echo "patch does not apply to /repo"; exit 2; }
 PYTHONPATH=$WT timeout 600 /venv/bin/python $OUT/demo$N.py > $LOG/demo_clean.log 2>&1; D0=$?
